@@ -736,3 +736,12 @@ fire("C02", "svd-scaling-power-parameter", "R2.9", E(CFC, "CountFeatureCompressi
      "seeded r3_C02: u s^p from fit_transform, u s^(1-p) from transform")
 silent("C02", "svd-scaling-power-half", E(CFC, "CountFeatureCompressionTransformer.fit_transform", "        self.component_scaling_ = np.sqrt(s)", "        self.component_scaling_ = np.power(s, 0.5)"),
        "the square root spelled as a power")
+
+# --- C09: the pending merge at the vocabulary budget (genuine defect, found through a remark of the r3_C02 agent)
+fire("C09", "pending-merge-not-applied", "R9.8", E(MG, "bpe_train", """    if len(tokens) >= vocab_size:
+        for i, char_array in enumerate(compressed_chars):
+            compressed_chars[i], pair_counts = contract_and_count_pairs(
+                char_array, pair_to_replace, pair_counts, new_code
+            )
+
+""", ""), "revert of the fix: the merge recorded last is never applied when the budget ends the loop")
